@@ -315,17 +315,21 @@ def oracle(ctx, rec, n_rec, n_ref_rec, n_gen, n_ref_gen):
 
 
 def run(ctx, model_ok=True):
-    rec, runs = A.record_ep(ctx.rng, ctx.n(30, 150))
+    with A.phase(ctx, "record_ep"):
+        rec, runs = A.record_ep(ctx.rng, ctx.n(20, 150))
     ctx.notes["ep_runs_recorded"] = runs
     ctx.notes["recorded_calls"] = {k: len(v) for k, v in rec.items()}
     if model_ok:
         extra = {}
         for fn in A.WRAPPERS:
-            extra[fn] = list(rec.get(fn, []))[: ctx.n(10, 60)]
-        A.correspondence(ctx, group(), ctx.n(25, 150), extra=extra)
-    oracle(ctx, rec, ctx.n(40, 300), ctx.n(4, 40), ctx.n(12, 80), ctx.n(3, 25))
+            extra[fn] = list(rec.get(fn, []))[: ctx.n(6, 60)]
+        with A.phase(ctx, "float_correspondence"):
+            A.correspondence(ctx, group(), ctx.n(15, 150), extra=extra)
+    with A.phase(ctx, "oracle"):
+        oracle(ctx, rec, ctx.n(30, 300), ctx.n(3, 40), ctx.n(8, 80), ctx.n(2, 25))
     if ctx.tier == "thorough":
-        A.jit_check(ctx, group(), 200)
+        with A.phase(ctx, "jit_check"):
+            A.jit_check(ctx, group(), 200)
 
 
 def search(ctx):
